@@ -11,8 +11,8 @@ import (
 	"github.com/linxGnu/grocksdb"
 
 	"verif/harness/internal/fw"
-	lab "verif/harness/internal/mptlab"
 	"verif/harness/internal/model"
+	lab "verif/harness/internal/mptlab"
 )
 
 // C14 — every stored trie node is addressed by its own hash and round-trips through encode/decode.
@@ -79,6 +79,35 @@ func (s *c14sweep) node(where string, key []byte, enc []byte, n util.Node) bool 
 	if e2 := n2.Encode(); !bytes.Equal(e2, enc) {
 		c.Violate("", "%s: encode(decode(enc)) = %x differs from enc = %x", where, e2, enc)
 		return false
+	}
+	// any origin/version: advance the version mark only (as a prune mark pass does) and round-trip again:
+	// the hash depends on the origin only, and both fields must come back where they were put
+	if c.Rng.Intn(4) == 0 {
+		bump := util.Sequence(1 + c.Rng.Intn(1000))
+		n2.SetVersion(n2.GetOrigin() + bump)
+		e3 := n2.Encode()
+		n3, err := util.CreateNode(bytes.NewReader(e3))
+		if err != nil {
+			c.Violate("", "%s: CreateNode fails after advancing the version mark: %v", where, err)
+			return false
+		}
+		if n3.GetOrigin() != n2.GetOrigin() || n3.GetVersion() != n2.GetVersion() {
+			c.Violate("", "%s: node with origin %d / version %d decodes as origin %d / version %d", where, n2.GetOrigin(), n2.GetVersion(), n3.GetOrigin(), n3.GetVersion())
+			return false
+		}
+		if h3 := n3.GetHashBytes(); !bytes.Equal(h3, key) {
+			c.Violate("", "%s: after advancing only the version mark, decode(encode(node)) hashes to %x, the node's key is %x", where, h3, key)
+			return false
+		}
+		if !bytes.Equal(n3.Encode(), e3) {
+			c.Violate("", "%s: encode(decode(enc)) differs after advancing the version mark", where)
+			return false
+		}
+		if p3, perr := model.ParseStored(e3); perr != nil || p3.Origin != int64(n2.GetOrigin()) || p3.Version != int64(n2.GetVersion()) || !bytes.Equal(p3.Hash(), key) {
+			c.Violate("", "%s: stored layout (type, LE64 version, LE64 origin, body) not respected after advancing the version mark: %x", where, e3)
+			return false
+		}
+		c.Count("version_mark_round_trips", 1)
 	}
 	// kind coverage
 	switch pn.Type {
@@ -217,6 +246,27 @@ func runC14(c *fw.Ctx) {
 			}
 		}
 		c.Count("histories:"+st.name, 1)
+		// sync from a donor that holds one node under a key that is not its hash (a faulty peer): whatever the trie
+		// writes to its own store must still be stored under the hash of its own content
+		if nodes, _ := lab.Walk(st.db, m.GetRoot()); len(nodes) >= 2 {
+			donor := util.NewMemoryNodeDB()
+			for _, n := range nodes {
+				_ = donor.PutNode(n.Key, n.Node)
+			}
+			a, b := nodes[r.Intn(len(nodes))], nodes[r.Intn(len(nodes))]
+			if !bytes.Equal(a.Key, b.Key) {
+				donor.Nodes[util.StrKey(a.Key)] = b.Node.CloneNode() // b's content planted under a's key
+				target := util.NewMemoryNodeDB()
+				T := lab.NewMPT(target, version, nil)
+				if err := T.MergeDB(donor, m.GetRoot(), nil); err == nil {
+					if !sw.store("after MergeDB from a donor with a mis-keyed node", target, "") {
+						c.Violate("", "history: %s", strings.Join(c.Trace(), "; "))
+						return
+					}
+					c.Count("miskeyed_donor_syncs", 1)
+				}
+			}
+		}
 	default: // multi-round histories saved to the persistent store
 		disk := fmt.Sprintf("/verif-stub/C14/%d/%d/main", c.Seed, c.Idx)
 		defer grocksdb.DropDisk(disk)
@@ -279,7 +329,7 @@ func init() {
 		Level: "exploration",
 		Rule: "workloads: (a) direct insert/delete histories with version bumps on memory / layered / persistent / layered-over-persistent stores, (b) multi-round block histories saved to the persistent store (same generator as C04, every 8th with a fat round of several hundred changed nodes in one save); values are biased to separator bytes " +
 			"(':', '::::', leading/trailing ':', 0x00, 200-byte binary, ':'+32 random bytes, hex-looking strings). Every 8 operations and at the end, every node of every store level involved is swept: stored key == GetHashBytes() == sha3(LE64(origin)‖body) recomputed by the harness' own parser from the stored encoding; " +
-			"CreateNode(enc) has the same hash and re-encodes to the same bytes; the trie root re-computes bottom-up from stored encodings and reads the model content (for every saved root in (b)). distinct non-trivial = distinct stored encodings swept",
+			"CreateNode(enc) has the same hash and re-encodes to the same bytes; for a quarter of the nodes the version mark alone is advanced (origin != version) and the round trip repeated (fields preserved, hash unchanged, stored layout respected); after each direct history the state is synced with MergeDB from a donor store in which one node is planted under another node's key, and the target store is swept; the trie root re-computes bottom-up from stored encodings and reads the model content (for every saved root in (b)). distinct non-trivial = distinct stored encodings swept",
 		Cases: func(tier string) int {
 			if tier == "thorough" {
 				return 240000
@@ -289,7 +339,7 @@ func init() {
 		Run: runC14,
 		Floors: map[string]int64{"nodes_swept": 300000, "root_recomputations": 20000, "kind:leaf-emptypath": 1000, "kind:leaf-path": 1000, "kind:branch-value": 1000, "kind:branch-novalue": 1000, "kind:ext-len1": 1000, "kind:ext-long": 1000,
 			"kind:value-with-separator": 10000, "kind:ext-childhash-contains-separator-byte": 100, "distinct:branch_child_counts": 3,
-			"histories:memory": 100, "histories:persistent": 100, "histories:rounds-on-persistent": 1000, "fat_rounds": 100},
+			"histories:memory": 100, "histories:persistent": 100, "histories:rounds-on-persistent": 1000, "fat_rounds": 100, "version_mark_round_trips": 50000, "miskeyed_donor_syncs": 3000},
 		Assumptions: []string{"node kinds are those the operation histories produce; the hash format is the one read from the pinned code (see C02)"},
 	})
 }
